@@ -173,4 +173,35 @@ FailedViews(hk, s) ==
                [] c = "ViewHeadFirst" -> VW_HeadFirst(hk.views[l], l, s)
                [] c = "ViewAfterPred" -> VW_AfterPred(hk.views[l], l, s)}
         : l \in DOMAIN hk.views}
+
+(***************************** C17 rendering *******************************)
+\* d = [exc, parseexc, nodes : name -> [cluster, lname, asg, var, tab, offs, expoffs], clusters : name -> [parent, lname],
+\*      solid : Seq(<<src, dst>>), dashed : Seq(<<src, dst>>)]   (the drawing, parsed from the generated DOT source)
+ClusterOf(s, n) == IF s.H[n].up = s.root THEN "" ELSE s.H[n].up
+PairSet(q) == {<<q[j][1], q[j][2]>> : j \in 1..Len(q)}
+Blocks(s) == DOMAIN s.H \ Regions(s.H)
+DR_Nodes(d, s)    == DOMAIN d.nodes = Blocks(s)
+DR_Clusters(d, s) == /\ DOMAIN d.clusters = Regions(s.H)
+                     /\ \A r \in DOMAIN d.clusters \cap Regions(s.H) : d.clusters[r].parent = ClusterOf(s, r)
+DR_Placement(d, s) == \A n \in DOMAIN d.nodes \cap Blocks(s) : d.nodes[n].cluster = ClusterOf(s, n)
+\* an edge to a region is drawn to the innermost header block of that region
+SolidExpected(s) == UNION {{<<b, InnerHeader(s.H, Fwd(s.H[b])[j])>> : j \in 1..Len(Fwd(s.H[b]))} : b \in Blocks(s)}
+DashedExpected(s) == UNION {{<<b, InnerHeader(s.H, s.H[b].be[j])>> : j \in 1..Len(s.H[b].be)} : b \in Blocks(s)}
+SumLen(s, f(_)) == LET RECURSIVE Sum(_) Sum(S) == IF S = {} THEN 0 ELSE LET x == CHOOSE y \in S : TRUE IN Len(f(s.H[x])) + Sum(S \ {x}) IN Sum(Blocks(s))
+BeOf(b) == b.be
+DR_SolidEdges(d, s)  == PairSet(d.solid) = SolidExpected(s) /\ Len(d.solid) = SumLen(s, Fwd)
+DR_DashedEdges(d, s) == PairSet(d.dashed) = DashedExpected(s) /\ Len(d.dashed) = SumLen(s, BeOf)
+DR_Labels(d, s) ==
+  /\ \A n \in DOMAIN d.nodes \cap Blocks(s) :
+        /\ d.nodes[n].lname = n
+        /\ s.H[n].k = "assign" => PairSet(d.nodes[n].asg) = PairSet(s.H[n].asg)
+        /\ s.H[n].k \in BranchKinds => d.nodes[n].var = s.H[n].var /\ PairSet(d.nodes[n].tab) = PairSet(s.H[n].tab)
+        /\ d.nodes[n].offs = d.nodes[n].expoffs          \* payload summary (instruction list of a bytecode block)
+  /\ \A r \in DOMAIN d.clusters : d.clusters[r].lname = r
+FailedDrawing(d, s) ==
+  IF d.exc # "" THEN {"RenderRaises"}
+  ELSE IF d.parseexc # "" THEN {"MACHINERY-dot-parser"}
+  ELSE {c \in {"Nodes", "Clusters", "Placement", "SolidEdges", "DashedEdges", "Labels"} :
+          ~ CASE c = "Nodes" -> DR_Nodes(d, s) [] c = "Clusters" -> DR_Clusters(d, s) [] c = "Placement" -> DR_Placement(d, s)
+              [] c = "SolidEdges" -> DR_SolidEdges(d, s) [] c = "DashedEdges" -> DR_DashedEdges(d, s) [] c = "Labels" -> DR_Labels(d, s)}
 =============================================================================
